@@ -96,6 +96,8 @@ def cast_sequence(value, from_type, options):
 
 
 def cast_to_binary(value, from_type, options):
+    if isinstance(from_type, NullType):
+        return None
     if isinstance(from_type, StringType):
         if value is None:
             return None
@@ -324,6 +326,8 @@ def cast_to_double(value, from_type, options):
 
 
 def cast_to_array(value, from_type, to_type, options):
+    if isinstance(from_type, NullType):
+        return None
     if isinstance(from_type, ArrayType):
         if value is None:
             return None
@@ -338,6 +342,8 @@ def cast_to_array(value, from_type, to_type, options):
 
 
 def cast_to_map(value, from_type, to_type, options):
+    if isinstance(from_type, NullType):
+        return None
     if isinstance(from_type, MapType):
         if value is None:
             return None
@@ -355,6 +361,8 @@ def cast_to_map(value, from_type, to_type, options):
 
 
 def cast_to_struct(value, from_type, to_type, options):
+    if isinstance(from_type, NullType):
+        return None
     if isinstance(from_type, StructType):
         return get_struct_caster(from_type, to_type, options)(value)
     raise NotImplementedError("Pysparkling does not support yet cast to struct")
